@@ -11,10 +11,13 @@ import contracts_common_signal as CS
 G = Q('9.81')
 
 
-def setup_asig(V, st, min_n=1):
+DT = [dict(dtype='float'), dict(dtype='int')]      # the record as float64 and as an integer-dtype array (raw counts)
+
+
+def setup_asig(V, st, min_n=1, dtype='float'):
     def setup():
         n = V.size('n', min_n)
-        a = V.array('a', n)
+        a = V.array('a', n, dtype)
         dt = V.real('dt')
         V.assume(dt > 0)
         asig = S.make_signal(V, 'AccSignal', a, dt)
@@ -45,10 +48,10 @@ def trap(dt, f):
     return lambda i: T.sdiv(T.smul(dt, T.sadd(f(i), f(i - 1))), 2)
 
 
-@unit('C09', 'calc_arias_intensity', functions=['eqsig.im.calc_arias_intensity', 'eqsig.im._raw_calc_arias_intensity'], sizes=dict(n=[1, 2, 4]))
-def arias(V):
+@unit('C09', 'calc_arias_intensity', functions=['eqsig.im.calc_arias_intensity', 'eqsig.im._raw_calc_arias_intensity'], cases=DT, sizes=dict(n=[1, 2, 4]))
+def arias(V, dtype):
     st = {}
-    for out in V.run('eqsig.im.calc_arias_intensity', setup_asig(V, st)):
+    for out in V.run('eqsig.im.calc_arias_intensity', setup_asig(V, st, dtype=dtype)):
         if not out.no_raise():
             continue
         out.side_conditions()
@@ -69,10 +72,10 @@ def arias(V):
         out.unchanged('a', a)
 
 
-@unit('C09', 'calc_cav', functions=['eqsig.im.calc_cav'], sizes=dict(n=[1, 2, 4]))
-def cav(V):
+@unit('C09', 'calc_cav', functions=['eqsig.im.calc_cav'], cases=DT, sizes=dict(n=[1, 2, 4]))
+def cav(V, dtype):
     st = {}
-    for out in V.run('eqsig.im.calc_cav', setup_asig(V, st)):
+    for out in V.run('eqsig.im.calc_cav', setup_asig(V, st, dtype=dtype)):
         if not out.no_raise():
             continue
         out.side_conditions()
@@ -80,10 +83,10 @@ def cav(V):
         series_clauses(V, out, out.result, n, 0, trap(dt, lambda j: T.sabs(a[j])), st=st)
 
 
-@unit('C09', 'calc_isv', functions=['eqsig.im.calc_isv'], sizes=dict(n=[2, 4]))
-def isv(V):
+@unit('C09', 'calc_isv', functions=['eqsig.im.calc_isv'], cases=DT, sizes=dict(n=[2, 4]))
+def isv(V, dtype):
     st = {}
-    for out in V.run('eqsig.im.calc_isv', setup_asig(V, st, 2)):
+    for out in V.run('eqsig.im.calc_isv', setup_asig(V, st, 2, dtype=dtype)):
         if not out.no_raise():
             continue
         out.side_conditions()
@@ -92,10 +95,10 @@ def isv(V):
         series_clauses(V, out, out.result, n, 0, trap(dt, lambda j: T.smul(v[j], v[j])), st=st)
 
 
-@unit('C09', 'calc_integral_of_abs_acceleration', functions=['eqsig.im.calc_integral_of_abs_acceleration'], sizes=dict(n=[1, 2, 4]))
-def int_abs_acc(V):
+@unit('C09', 'calc_integral_of_abs_acceleration', functions=['eqsig.im.calc_integral_of_abs_acceleration'], cases=DT, sizes=dict(n=[1, 2, 4]))
+def int_abs_acc(V, dtype):
     st = {}
-    for out in V.run('eqsig.im.calc_integral_of_abs_acceleration', setup_asig(V, st)):
+    for out in V.run('eqsig.im.calc_integral_of_abs_acceleration', setup_asig(V, st, dtype=dtype)):
         if not out.no_raise():
             continue
         out.side_conditions()
@@ -104,10 +107,10 @@ def int_abs_acc(V):
 
 
 @unit('C09', 'calc_integral_of_abs_velocity', functions=['eqsig.im.calc_integral_of_abs_velocity', 'eqsig.im.calc_cumulative_abs_displacement'],
-      cases=[dict(fn='calc_integral_of_abs_velocity'), dict(fn='calc_cumulative_abs_displacement')], sizes=dict(n=[2, 4]))
-def int_abs_vel(V, fn):
+      cases=[dict(fn=f, dtype=d) for f in ('calc_integral_of_abs_velocity', 'calc_cumulative_abs_displacement') for d in ('float', 'int')], sizes=dict(n=[2, 4]))
+def int_abs_vel(V, fn, dtype):
     st = {}
-    for out in V.run('eqsig.im.' + fn, setup_asig(V, st, 2)):
+    for out in V.run('eqsig.im.' + fn, setup_asig(V, st, 2, dtype=dtype)):
         if not out.no_raise():
             continue
         out.side_conditions()
@@ -116,10 +119,10 @@ def int_abs_vel(V, fn):
         series_clauses(V, out, out.result, n, 0, lambda i: T.smul(T.sabs(v[i]), dt), st=st)
 
 
-@unit('C09', 'calc_unit_kinetic_energy', functions=['eqsig.im.calc_unit_kinetic_energy'], sizes=dict(n=[2, 4]))
-def uke(V):
+@unit('C09', 'calc_unit_kinetic_energy', functions=['eqsig.im.calc_unit_kinetic_energy'], cases=DT, sizes=dict(n=[2, 4]))
+def uke(V, dtype):
     st = {}
-    for out in V.run('eqsig.im.calc_unit_kinetic_energy', setup_asig(V, st, 2)):
+    for out in V.run('eqsig.im.calc_unit_kinetic_energy', setup_asig(V, st, 2, dtype=dtype)):
         if not out.no_raise():
             continue
         out.side_conditions()
